@@ -76,14 +76,17 @@ def l3_frozen_marginal(chk, ctx, rng, n):
                 j = int(np.argmax(np.abs(a - b))) + 1
                 chk.fail(key + ':pop%d' % (k + 1), 'marginal of frozen population %d changed at interior frequency x[%d]: %.6g -> %.6g' % (k + 1, j, m0[j], m1[j]), inp)
 
-def l3_isolated_marginal(chk, ctx, rng, n):
-    """no migration, no selection: marginal of any subset S evolves as S integrated alone with the same time steps"""
+def l3_isolated_marginal(chk, ctx, rng, n, forced=None):
+    """no migration, no selection: marginal of any subset S evolves as S integrated alone with the same time steps.
+    `forced`: list of (d, k): additionally one case per pair with population k in S and EVERY population of S (and one outside S)
+    given its own time-dependent size, so each population's size function of each driver is exercised on every run."""
     dadi = ctx['dadi']; I = dadi.Integration
     old = I.use_old_timestep
     I.use_old_timestep = True       # dt = 0.1*dx[0] for every dimensionality: "the same time steps"
     try:
-        for it in range(n):
-            d = 2 + it % 4
+        cases = [None] * n + list(forced or [])
+        for it, fc in enumerate(cases):
+            d = 2 + it % 4 if fc is None else fc[0]
             pts = {2: 12, 3: 8, 4: 6, 5: 5}[d] + int(rng.integers(0, 2))
             xx = grid_for(dadi, rng, pts, it)
             phi = gen.density(rng, [pts] * d)
@@ -91,17 +94,28 @@ def l3_isolated_marginal(chk, ctx, rng, n):
             fr = [bool(rng.random() < 0.15) for _ in range(d)]
             if all(fr): fr[0] = False
             th = float(rng.uniform(0.3, 3))
-            varying = bool((it // 4) % 2)      # independent of d (= 2 + it % 4)
+            varying = bool((it // 4) % 2) if fc is None else True     # independent of d (= 2 + it % 4)
             T = float(rng.uniform(2, 6)) * 0.1 * (xx[1] - xx[0])
             size = int(rng.integers(1, d))
             S = sorted(int(x) for x in rng.choice(d, size=size, replace=False))
+            if fc is not None:
+                k = fc[1]; fr[k] = False
+                if k not in S: S = sorted(S[:-1] + [k]) if len(S) > 1 else [k]
             zero = [0.0] * d; half = [0.5] * d
             kw = kwargs_for(d, nus, {}, zero, half, th, fr, None)
             kwS = kwargs_for(len(S), [nus[i] for i in S], {}, [0.0] * len(S), [0.5] * len(S), th, [fr[i] for i in S], None)
-            if varying:
+            if varying and fc is None:
                 f = (lambda t, v=nus[S[0]]: v * (1 + 0.5 * math.sin(300 * t)))
                 kw['nu%d' % (S[0] + 1)] = f
                 kwS['nu' if len(S) == 1 else 'nu1'] = f
+            elif varying:
+                for j, i in enumerate(S):
+                    f = (lambda t, v=nus[i], w=200 + 70 * i: v * (1 + 0.5 * math.sin(w * t)))
+                    kw['nu%d' % (i + 1)] = f
+                    kwS['nu' if len(S) == 1 else 'nu%d' % (j + 1)] = f
+                out = [i for i in range(d) if i not in S]
+                if out:
+                    kw['nu%d' % (out[0] + 1)] = (lambda t, v=nus[out[0]]: v * (1 + 0.3 * math.cos(150 * t)))
             key = 'isolated-marginal:%dD->%dD:varying=%s' % (d, len(S), varying)
             chk.l3((key, tuple(S), tuple(fr)))
             inp = dict(d=d, S=S, pts=pts, nus=nus, frozen=fr, theta0=th, T=T, varying=varying)
@@ -252,7 +266,7 @@ def run(chk, ctx):
     from . import c03
     c03.k_sweep(chk, ctx, rng, 10 if q else 50, tier)
     l3_frozen_marginal(chk, ctx, rng, 16 if q else 96)
-    l3_isolated_marginal(chk, ctx, rng, 12 if q else 72)
+    l3_isolated_marginal(chk, ctx, rng, 12 if q else 72, forced=[(d, k) for d in range(2, 6) for k in range(d)])
     l3_mass_per_kernel(chk, ctx, rng, 15 if q else 80)
     l3_reject(chk, ctx, rng, 1)
 
